@@ -63,6 +63,18 @@ def parse_toks(line):
     return out
 
 
+def _is_ascii(b: bytes):
+    return all(x < 128 for x in b)
+
+
+def _shape(line):
+    """kinds and offsets of a token line (lexemes dropped); other lines unchanged"""
+    toks = parse_toks(line or "")
+    if toks is None:
+        return line
+    return [(t[0], t[2], t[3]) for t in toks]
+
+
 def lex_class(line):
     if line is None:
         return "MISSING"
@@ -129,7 +141,11 @@ def lex_stream(ctx, genprop="LEX", subdir="lex"):
             cls = "impl-" + lex_class(i).lower()
             counters["mismatch-" + cls] += 1
             mism.append(dict(id=cid, src=src, tag=tag, impl=i, model=m, cls=cls))
-        elif i == m:
+        elif i == m or (not _is_ascii(src) and _shape(i) == _shape(m)):
+            # a source that is not ASCII is lexed by the model through its class image (Model/Unicode.lean): kinds,
+            # rune offsets and errors are compared, lexemes are images of each other by construction
+            if not _is_ascii(src):
+                counters["agree-nonascii-shape"] += 1
             counters["agree"] += 1
             toks = parse_toks(m)
             if toks is not None and len(toks) > 2:
